@@ -231,3 +231,152 @@ pub fn forge(inp: &ForgeInput, tamper: &Tamper) -> Option<Forged> {
     put_opaque(&mut out, &mtag);
     Some(Forged { bytes: out, epoch_authenticator: es.epoch_authenticator, new_tree_hash, fdp, resolution })
 }
+
+// ---------------------------------------------------------------------------------------------
+// Welcome re-sealing: anybody who knows the joiner secret (every member of the new epoch) can open the encrypted
+// GroupInfo of a Welcome, change it and seal it again for a joiner. Here the joiner's own key package secrets stand in
+// for the insider's knowledge of the joiner secret (same bytes).
+
+#[derive(Clone, Debug, PartialEq)]
+pub enum GroupInfoEdit {
+    /// nothing changed: the re-sealed Welcome must be accepted (positive control)
+    None,
+    /// one bit of the GroupInfo signature flipped
+    SignatureBit(usize),
+    /// signer field names another leaf, signature left alone
+    SignerIndex(u32),
+    /// confirmation tag changed and the GroupInfo properly re-signed with the given key (the real signer's)
+    ConfirmationTagResigned(SignatureSecretKey),
+    /// epoch in the group context changed and the GroupInfo properly re-signed
+    EpochResigned(SignatureSecretKey),
+    /// GroupInfo untouched; the GroupSecrets carry an unrelated path secret (added when there was none)
+    UnrelatedPathSecret,
+}
+
+pub struct ResealedWelcome {
+    pub bytes: Vec<u8>,
+    pub signer: u32,
+}
+
+pub fn reseal_welcome(suite: u16, csp: &VSuite, welcome: &[u8], lookup: &dyn Fn(&[u8]) -> Option<(Vec<u8>, Vec<u8>)>, edit: &GroupInfoEdit) -> Option<ResealedWelcome> {
+    use mls_rs::crypto::{HpkeCiphertext, HpkeSecretKey};
+    let s = rk::Suite::new(suite);
+    let mut r = Reader::new(welcome);
+    let version = r.u16()?;
+    if r.u16()? != 3 {
+        return None;
+    }
+    let cs = r.u16()?;
+    let mut secrets = r.vector()?;
+    let egi = r.opaque()?.to_vec();
+    // the entry of a joiner whose key package secrets we hold
+    let mut mine = None;
+    while !secrets.is_empty() {
+        let new_member = secrets.opaque()?.to_vec();
+        let kem_output = secrets.opaque()?.to_vec();
+        let ciphertext = secrets.opaque()?.to_vec();
+        if mine.is_none() {
+            if let Some((init_sk, init_pk)) = lookup(&new_member) {
+                mine = Some((new_member, kem_output, ciphertext, init_sk, init_pk));
+            }
+        }
+    }
+    let (new_member, kem_output, ciphertext, init_sk, init_pk) = mine?;
+    let info = |egi: &[u8]| {
+        let mut i = vec![];
+        put_opaque(&mut i, b"MLS 1.0 Welcome");
+        put_opaque(&mut i, egi);
+        i
+    };
+    let (sk, pk) = (HpkeSecretKey::from(init_sk), HpkePublicKey::from(init_pk));
+    let gs = csp.hpke_open(&HpkeCiphertext { kem_output, ciphertext }, &sk, &pk, &info(&egi), None).ok()?;
+    // GroupSecrets: joiner_secret<V>, optional<PathSecret>, psks<V>
+    let mut g = Reader::new(&gs);
+    let joiner = g.opaque()?.to_vec();
+    if g.u8()? == 1 {
+        g.opaque()?;
+    }
+    if !g.opaque()?.is_empty() {
+        return None; // a PSK goes into the welcome key: not modelled here
+    }
+    let gs = if *edit == GroupInfoEdit::UnrelatedPathSecret {
+        let mut n = vec![];
+        put_opaque(&mut n, &joiner);
+        n.push(1);
+        put_opaque(&mut n, &s.derive_secret(&joiner, b"verif unrelated path secret"));
+        put_opaque(&mut n, &[]);
+        n
+    } else {
+        gs.to_vec()
+    };
+    let es = rk::from_joiner(&s, &joiner, &[], &vec![0u8; s.nh()]);
+    let gi = csp.aead_open(&es.welcome_key, &egi, None, &es.welcome_nonce).ok()?.to_vec();
+    // GroupInfo: GroupContext, extensions<V>, confirmation_tag<V>, signer, signature<V>
+    let mut p = Reader::new(&gi);
+    let c_version = p.u16()?;
+    let c_suite = p.u16()?;
+    let c_gid = p.opaque()?.to_vec();
+    let c_epoch = p.u64()?;
+    let c_tree_hash = p.opaque()?.to_vec();
+    let c_cth = p.opaque()?.to_vec();
+    let c_ext_start = p.pos;
+    p.opaque()?;
+    let c_ext = gi[c_ext_start..p.pos].to_vec();
+    let gi_ext_start = p.pos;
+    p.opaque()?;
+    let gi_ext = gi[gi_ext_start..p.pos].to_vec();
+    let mut tag = p.opaque()?.to_vec();
+    let mut signer = p.u32()?;
+    let mut signature = p.opaque()?.to_vec();
+    if !p.is_empty() {
+        return None;
+    }
+    let mut epoch = c_epoch;
+    let mut resign: Option<&SignatureSecretKey> = None;
+    match edit {
+        GroupInfoEdit::None | GroupInfoEdit::UnrelatedPathSecret => {}
+        GroupInfoEdit::SignatureBit(i) => {
+            let n = signature.len();
+            signature[i % n] ^= 1 << (i % 8);
+        }
+        GroupInfoEdit::SignerIndex(l) => signer = *l,
+        GroupInfoEdit::ConfirmationTagResigned(k) => {
+            let n = tag.len();
+            tag[n / 2] ^= 0x08;
+            resign = Some(k);
+        }
+        GroupInfoEdit::EpochResigned(k) => {
+            epoch += 1;
+            resign = Some(k);
+        }
+    }
+    let mut tbs = vec![];
+    tbs.extend_from_slice(&c_version.to_be_bytes());
+    tbs.extend_from_slice(&c_suite.to_be_bytes());
+    put_opaque(&mut tbs, &c_gid);
+    tbs.extend_from_slice(&epoch.to_be_bytes());
+    put_opaque(&mut tbs, &c_tree_hash);
+    put_opaque(&mut tbs, &c_cth);
+    tbs.extend_from_slice(&c_ext);
+    tbs.extend_from_slice(&gi_ext);
+    put_opaque(&mut tbs, &tag);
+    tbs.extend_from_slice(&signer.to_be_bytes());
+    if let Some(k) = resign {
+        signature = sign(csp, k, "GroupInfoTBS", &tbs)?;
+    }
+    let mut gi2 = tbs;
+    put_opaque(&mut gi2, &signature);
+    let egi2 = csp.aead_seal(&es.welcome_key, &gi2, None, &es.welcome_nonce).ok()?;
+    let ct = csp.hpke_seal(&pk, &info(&egi2), None, &gs).ok()?;
+    let mut entry = vec![];
+    put_opaque(&mut entry, &new_member);
+    put_opaque(&mut entry, &ct.kem_output);
+    put_opaque(&mut entry, &ct.ciphertext);
+    let mut out = vec![];
+    out.extend_from_slice(&version.to_be_bytes());
+    out.extend_from_slice(&3u16.to_be_bytes());
+    out.extend_from_slice(&cs.to_be_bytes());
+    put_opaque(&mut out, &entry);
+    put_opaque(&mut out, &egi2);
+    Some(ResealedWelcome { bytes: out, signer })
+}
